@@ -24,6 +24,13 @@ def earliest (l : List Sleeper) : Option Sleeper :=
     | none => some s
     | some b => if s.deadline < b.deadline || (s.deadline = b.deadline && s.sid < b.sid) then some s else some b) none
 
+/-- time passes, never past the earliest pending timer -/
+def Kernel.advance (k : Kernel) (ms : Nat) (deadlines : List Nat) : Kernel :=
+  let lim := deadlines.foldl min (k.now + ms)
+  ({ k with now := max k.now (min (k.now + ms) lim) }).resolve
+
+def Kernel.addFault (k : Kernel) (n pid st : Nat) : Kernel := { k with faults := k.faults ++ [(n, pid, st)] }
+
 /-- the timer of `sl` fires: it leaves the list, the clock jumps to its deadline -/
 def fireSleeper (sl : Sleeper) : M Unit :=
   modS fun s => { s with sleepers := s.sleepers.filter (·.sid ≠ sl.sid),
@@ -51,11 +58,10 @@ def stepOp : Op → M Unit
       deliver (exec fuelDefault) sl.waiter .unit
   | .adv ms => do
     let s ← getS
-    let lim := (s.sleepers.map (·.deadline)).foldl min (s.k.now + ms)
-    setK ({ s.k with now := max s.k.now (min (s.k.now + ms) lim) }).resolve
-  | .die pid st => do let k ← getK; setK (k.die pid st)
+    updK fun k => k.advance ms (s.sleepers.map (·.deadline))
+  | .die pid st => updK fun k => k.die pid st
   | .xkill pid sig => do let _ ← kKill pid sig "x"
-  | .fault n pid st => do let k ← getK; setK { k with faults := k.faults ++ [(n, pid, st)] }
+  | .fault n pid st => updK fun k => k.addFault n pid st
 
 /-- the loop runs until nothing is ready; a stopped loop makes `Arbiter.start` close everything -/
 def stepTail : M Unit := do
@@ -68,7 +74,7 @@ def stepTail : M Unit := do
 def stepM (op : Op) : M Unit := do
   let s0 ← getS
   if s0.blocked then pure () else
-  setK s0.k.beginStep
+  updK Kernel.beginStep
   stepOp op
   stepTail
 
